@@ -73,7 +73,7 @@ class Stall(Exception):
         self.what, self.worker, self.progress = what, worker, progress
 
 
-def run_workers(binname, args, nworkers, outdir, prefix, stall_s=20, total_s=3600, env=None, per_worker_args=None):
+def run_workers(binname, args, nworkers, outdir, prefix, stall_s=20, total_s=3600, env=None, per_worker_args=None, clean_env=False):
     """Run nworkers copies of a driver (--worker i --workers n --out file).  Each is watched through
     its progress file: no progress for stall_s seconds, or abnormal death, raises Stall with the
     description of the call that was being executed."""
@@ -82,7 +82,7 @@ def run_workers(binname, args, nworkers, outdir, prefix, stall_s=20, total_s=360
         out = os.path.join(outdir, "%s.w%02d.ndjson" % (prefix, i))
         prog = os.path.join(outdir, "%s.w%02d.progress" % (prefix, i))
         open(prog, "w").close()
-        e = dict(os.environ, RVH_PROGRESS=prog)
+        e = dict(RVH_PROGRESS=prog) if clean_env else dict(os.environ, RVH_PROGRESS=prog)
         if env:
             e.update(env)
         a = [os.path.join(BIN, binname)] + list(args) + ["--worker", str(i), "--workers", str(nworkers), "--out", out]
@@ -176,7 +176,7 @@ def tlc_validate_one(module, chunk, extra_env=None, timeout=1800, cfg=None):
     env = dict(os.environ, TRACE=chunk, OUT=outp)
     env.pop("JAVA_TOOL_OPTIONS", None)
     if extra_env:
-        env.update(extra_env)
+        env.update(extra_env(chunk) if callable(extra_env) else extra_env)
     cmd = _java_opts(work) + ["-workers", "1", "-metadir", os.path.join(work, "meta"), "-cleanup", "-noGenerateSpecTE",
                               "-config", os.path.join(SPEC, cfg or (module + ".cfg")), os.path.join(SPEC, module + ".tla")]
     try:
